@@ -1599,16 +1599,26 @@ func (it *mapIter) kvTypes(x *ssa.Next) (types.Type, types.Type) {
 	return kt, vt
 }
 
-// decodeRuneSym decodes one rune from symbolic bytes by forking on the lead
-// byte class; only ASCII and well-formed sequences are distinguished from
-// "invalid" (which yields U+FFFD, width 1) as the Go spec prescribes.
+// decodeRuneSym decodes one rune from symbolic bytes: ASCII directly, anything
+// else through the real utf8.DecodeRuneInString executed from its SSA (its
+// branches fork on the byte classes; an invalid byte yields U+FFFD, width 1).
 func (m *Machine) decodeRuneSym(s *StrV, pos int) (*Term, int) {
 	b0 := s.Byte(pos)
 	if m.branch(Cmp("bvult", b0, BV(8, 0x80)), "range-string: ascii") {
 		return ZExt(b0, 32), 1
 	}
-	m.unmodelled("range over a string with symbolic non-ASCII bytes")
-	return nil, 0
+	up := m.prog.pkgs["unicode/utf8"]
+	if up == nil {
+		m.unmodelled("range over a string with symbolic non-ASCII bytes")
+	}
+	f := up.Func("DecodeRuneInString")
+	res := m.callFn(f, []Val{strSlice(s, pos, s.Len())}, nil, nil, nil).(TupleV)
+	size := res[1].(*Term)
+	if !size.IsConst() {
+		sz := m.concretise(size, 5, "rune width")
+		return res[0].(*Term), sz
+	}
+	return res[0].(*Term), int(size.C)
 }
 
 // ---- numeric conversion helpers used by extern.go ----
